@@ -10,7 +10,7 @@ import sys
 HERE = os.path.dirname(os.path.dirname(os.path.abspath(__file__)))
 SRC = sys.argv[1] if len(sys.argv) > 1 else "/tmp/seed3"
 SUFFIX = sys.argv[2] if len(sys.argv) > 2 else "s"          # round 3: -sK, round 4: -tK
-ROUND = {"s": 3, "t": 4, "u": 5}.get(SUFFIX, SUFFIX)
+ROUND = {"s": 3, "t": 4, "u": 5, "v": 6}.get(SUFFIX, SUFFIX)
 
 for pid in sorted(os.listdir(SRC)):
     if not re.fullmatch(r"C\d\d", pid):
